@@ -3,3 +3,7 @@ import Bmc.Proofs.C01
 #print axioms Bmc.Proofs.C01.session_ids
 #print axioms Bmc.Proofs.C01.unsupported_refused
 #print axioms Bmc.Proofs.C01.commands_sealed_with_session_keys
+#print axioms Bmc.Proofs.C01.handshake_succeeds
+#print axioms Bmc.Proofs.C01.keys_agree
+#print axioms Bmc.Proofs.C01.transmits_spec_datagrams
+#print axioms Bmc.Proofs.C01.hfit_of_lawful
